@@ -1,22 +1,30 @@
 use crate::runner::Property;
 
+pub mod c01;
 pub mod c07;
 pub mod c09;
 pub mod c10;
+pub mod c11;
 pub mod c12;
 pub mod c13;
 pub mod c14;
 pub mod c15;
+pub mod c16;
+pub mod c17;
 
 pub fn get(id: &str) -> Option<Property> {
     Some(match id {
+        "C01" => c01::property(),
         "C07" => c07::property(),
         "C09" => c09::property(),
         "C10" => c10::property(),
+        "C11" => c11::property(),
         "C12" => c12::property(),
         "C13" => c13::property(),
         "C14" => c14::property(),
         "C15" => c15::property(),
+        "C16" => c16::property(),
+        "C17" => c17::property(),
         _ => return None,
     })
 }
